@@ -34,6 +34,7 @@ type c15Case struct {
 	Dirty  bool      `json:"dirty"`
 	Config bool      `json:"config"` // rich unrelated configuration
 	Steps  []c15Step `json:"steps"`
+	Wipe   bool      `json:"wipe,omitempty"` // the session ends with `git-bug wipe`
 }
 
 func genC15(t *rapid.T) c15Case {
@@ -41,7 +42,7 @@ func genC15(t *rapid.T) c15Case {
 		Dirty: rapid.Bool().Draw(t, "dirty"), Config: rapid.IntRange(0, 3).Draw(t, "config") > 0}
 	text := rapid.OneOf(rapid.SampledFrom([]string{"plain", "with \"quotes\" and $vars", "unicode é 日本 🐛", "-starts-with-dash", "multi\nline"}), GenTitle())
 	one := rapid.Custom(func(t *rapid.T) c15Step {
-		return c15Step{Kind: rapid.SampledFrom([]string{"new", "new", "comment", "comment", "title", "close", "open", "label", "rm", "select", "deselect", "push", "push", "pull", "pull", "peeredit", "peeredit", "attach", "show", "ls", "gc"}).Draw(t, "kind"),
+		return c15Step{Kind: rapid.SampledFrom([]string{"new", "new", "comment", "comment", "title", "close", "open", "label", "rm", "select", "deselect", "push", "push", "pull", "pull", "peeredit", "peeredit", "attach", "show", "ls", "gc", "bridgeconf", "bridgerm"}).Draw(t, "kind"),
 			Bug: rapid.IntRange(0, 5).Draw(t, "bug"), Text: text.Draw(t, "text")}
 	})
 	c.Steps = rapid.SliceOfN(one, 5, 18).Draw(t, "steps")
@@ -56,6 +57,11 @@ func genC15(t *rapid.T) c15Case {
 		out := append([]c15Step(nil), c.Steps[:at]...)
 		out = append(out, plan...)
 		c.Steps = append(out, c.Steps[at:]...)
+	}
+	c.Wipe = rapid.IntRange(0, 3).Draw(t, "wipe") == 0
+	if c.Wipe {
+		// wipe only touches the configuration when something of git-bug's own is left in it
+		c.Steps = append(c.Steps, c15Step{Kind: "bridgeconf", Bug: rapid.IntRange(0, 2).Draw(t, "wipeBridge")})
 	}
 	return c
 }
@@ -204,6 +210,8 @@ func prepareHost(tb report.TB, dir string, c c15Case) {
 			{"remote.upstream.fetch", "+refs/heads/*:refs/remotes/upstream/*"}, {"url.ssh://git@example.org/.insteadOf", "https://example.org/"},
 			{"branch.main.remote", "upstream"}, {"branch.main.merge", "refs/heads/main"}, {"include.path", "../.gitconfig-extra"},
 			{"custom.section.key", "value with spaces"}, {"bugs.notgitbug", "1"},
+			// foreign sections whose names merely start like git-bug's own
+			{"git-bugzilla.url", "https://bugzilla.example.org"}, {"git-bug-hooks.main.path", "/opt/hooks"}, {"git-bugs.x", "1"},
 		} {
 			must(RunGit(dir, "config", kv[0], kv[1]))
 		}
@@ -254,7 +262,7 @@ func runC15(tb report.TB, rep *report.Reporter, c c15Case) {
 		}
 		return l[n%len(l)]
 	}
-	nPush, nPull, nAttach, nGC, nMultiAttach, merged := 0, 0, 0, 0, 0, false
+	nPush, nPull, nAttach, nGC, nMultiAttach, nBridge, merged := 0, 0, 0, 0, 0, 0, false
 	var kinds []string
 	for i, s := range c.Steps {
 		kinds = append(kinds, s.Kind)
@@ -308,6 +316,23 @@ func runC15(tb report.TB, rep *report.Reporter, c c15Case) {
 			if strings.Contains(res.Out, "updated") {
 				merged = true
 			}
+		case "bridgeconf":
+			// what `bridge new` stores once it has validated its parameters (which needs the network): the bridge's
+			// settings, through git-bug's own configuration API
+			repo, err := repository.OpenGoGitRepo(host, "git-bug", nil)
+			if err != nil {
+				tb.Fatalf("harness: %v", err)
+			}
+			name := []string{"mygitlab", "my", "mygitlab2"}[s.Bug%3]
+			for k, v := range map[string]string{"target": "gitlab", "project-id": "42", "gitlab-url": "https://gitlab.example.org/"} {
+				if err := repo.LocalConfig().StoreString(fmt.Sprintf("git-bug.bridge.%s.%s", name, k), v); err != nil {
+					tb.Fatalf("harness: %v", err)
+				}
+			}
+			_ = repo.Close()
+			nBridge++
+		case "bridgerm":
+			res = run(host, "bridge", "rm", []string{"mygitlab", "my", "mygitlab2"}[s.Bug%3])
 		case "gc":
 			// stock git, run by the user between two git-bug commands
 			if g := RunGit(host, "gc", "-q"); g.Code != 0 {
@@ -371,9 +396,23 @@ func runC15(tb report.TB, rep *report.Reporter, c c15Case) {
 		}
 		_ = i
 	}
+	if c.Wipe {
+		// the session ends with git-bug being removed from the repository: everything of its own goes, nothing else
+		if res := run(host, "wipe"); res.Code != 0 {
+			if fail("wipe-fails/"+Normalize(lastLine(res.Out)), res.Out) {
+				return
+			}
+		}
+		kinds = append(kinds, "wipe")
+		if left := RunGit(host, "config", "--local", "--get-regexp", `^git-bug\.`); strings.TrimSpace(left.Out) != "" {
+			if fail("wipe-leaves-own-configuration", left.Out) {
+				return
+			}
+		}
+	}
 	after := hostState(host)
 	rep.Case(strings.Join(kinds, ","), (nPush+nPull) > 0 && (nAttach > 0 || merged),
-		[]string{"head:" + c.Head, fmt.Sprintf("dirty:%v", c.Dirty), fmt.Sprintf("rich-config:%v", c.Config), fmt.Sprintf("merged:%v", merged), fmt.Sprintf("attachments:%v", nAttach > 0), fmt.Sprintf("gc-between-commands:%v", nGC > 0), fmt.Sprintf("several-attachment-operations-in-one-commit:%v", nMultiAttach > 0)}, c)
+		[]string{"head:" + c.Head, fmt.Sprintf("dirty:%v", c.Dirty), fmt.Sprintf("rich-config:%v", c.Config), fmt.Sprintf("merged:%v", merged), fmt.Sprintf("attachments:%v", nAttach > 0), fmt.Sprintf("gc-between-commands:%v", nGC > 0), fmt.Sprintf("several-attachment-operations-in-one-commit:%v", nMultiAttach > 0), fmt.Sprintf("bridge-configured:%v", nBridge > 0), fmt.Sprintf("ends-with-wipe:%v", c.Wipe)}, c)
 	if aspect, detail := before.diff(after); aspect != "" {
 		if fail("host-repository-disturbed/"+aspect, detail) {
 			return
@@ -398,7 +437,7 @@ func runC15(tb report.TB, rep *report.Reporter, c c15Case) {
 	}
 	fresh := filepath.Join(root, "fresh.git")
 	RunGit(root, "init", "-q", "--bare", fresh)
-	if len(ids(host)) > 0 {
+	if !c.Wipe && len(ids(host)) > 0 {
 		if res := RunGit(host, "push", "-q", fresh, "refs/bugs/*:refs/bugs/*", "refs/identities/*:refs/identities/*"); res.Code != 0 {
 			if fail("stock-git-cannot-push", res.Out) {
 				return
@@ -437,7 +476,7 @@ func runC15(tb report.TB, rep *report.Reporter, c c15Case) {
 		_ = fr.Close()
 	}
 	// after gc the host still reads its bugs and is still undisturbed
-	if res := run(host, "bug"); res.Code != 0 {
+	if res := run(host, "bug"); res.Code != 0 && !c.Wipe {
 		if fail("unreadable-after-gc/"+Normalize(lastLine(res.Out)), res.Out) {
 			return
 		}
